@@ -7,14 +7,14 @@ OUT=seeded/RESULTS.txt
 git -C /repo diff --quiet || { echo "/repo has local changes; aborting"; exit 2; }
 for d in seeded/${1:-}*/; do
   n=$(basename $d); id=${n%%-*}
-  [ -f $d/patch.diff ] || continue
-  if ! git -C /repo apply --check $d/patch.diff 2>/dev/null; then
-    if git -C /repo apply --3way $d/patch.diff >/dev/null 2>&1; then git -C /repo reset -q; else
+  [ -f /verif/$d/patch.diff ] || continue
+  if ! git -C /repo apply --check /verif/$d/patch.diff 2>/dev/null; then
+    if git -C /repo apply --3way /verif/$d/patch.diff >/dev/null 2>&1; then git -C /repo reset -q; else
       echo "$n: patch no longer applies to /repo HEAD $(git -C /repo rev-parse --short HEAD) (it was confirmed and detected at the HEAD recorded in its meta.json)" | tee -a $OUT
       git -C /repo checkout -q -- . ; continue
     fi
   else
-    git -C /repo apply $d/patch.diff
+    git -C /repo apply /verif/$d/patch.diff
   fi
   ./run.sh $id quick > /tmp/reseed.$$ 2>&1; rc=$?
   nv=$(grep -c '^VIOLATION' /tmp/reseed.$$)
